@@ -224,6 +224,13 @@ def run(ctx: Context) -> None:
         ok = len(lens) == 1 and flow.reaches(upd[0][2], lambda n: isinstance(n, ast.Name) and n.id == ha.params[1])
     ctx.check('R16.2', ok, "hash_attributes feeds the byte length, then bytes derived from the whole attribute dictionary", ha, ha.node,
               construct=f"feeds: {[norm_text(x[0]) for x in f]}")
+    # the whole dictionary: what is serialised is the dictionary that was handed in, not a selection of its entries
+    # (an attribute such as _FillValue on a connectivity variable is read by the geometry code)
+    rebound = [n for n in ast.walk(ha.node) if isinstance(n, ast.Name) and n.id == ha.params[1] and isinstance(n.ctx, (ast.Store, ast.Del))]
+    ser = [c for c in calls_in(ha) if (callee(ctx, ha, c) or '').endswith('.dumps') and c.args]
+    whole = not rebound and len(ser) == 1 and flow.canon(ser[0].args[0]) == ('param', ha.params[1])
+    ctx.check('R16.2', whole, "every attribute enters the key: the dictionary serialised is the one handed in, unfiltered", ha, rebound[0] if rebound else (ser[0] if ser else ha.node),
+              construct=f"serialised: {norm_text(ser[0].args[0]) if ser else '?'}; the parameter is rebound {len(rebound)} time(s)")
     hi = ctx.func(f"{CACHE}.hash_int")
     f = feeds_of(ctx, hi, hi.params[0])
     ok = len(f) == 1 and 'int32' in norm_text(f[0][2]) and norm_text(f[0][2]).endswith('.tobytes()') and hi.params[1] in norm_text(f[0][2])
